@@ -392,6 +392,22 @@ pub fn zoo_conformance(a: &Args, shared: &SharedReport, prefix: &str, th: bool) 
                 }
                 let acts: Vec<RAct> = g.edges[i].iter().map(|(a, _)| act_from_real(a)).collect();
                 compare_actions(prefix, &cfg, key, &acts, &mut r, &rv);
+                // the derived views of the same transition relation: next_steps / next_states
+                {
+                    let s_real = &g.states[i];
+                    let mut raw = Vec::new();
+                    m.actions(s_real, &mut raw);
+                    let want: Vec<(RAct, RState)> = raw.into_iter().filter_map(|a| { let ra = act_from_real(&a); m.next_state(s_real, a).map(|n| (ra, from_real(&n))) }).collect();
+                    let steps: Vec<(RAct, RState)> = m.next_steps(s_real).into_iter().map(|(a, n)| (act_from_real(&a), from_real(&n))).collect();
+                    let states: Vec<RState> = m.next_states(s_real).iter().map(from_real).collect();
+                    r.transitions += 2;
+                    if steps != want {
+                        r.violation(&format!("{prefix}:next-steps:{}", kname(cfg.kind)), format!("zoo {}: next_steps() of {:?} is {:?}, actions() x next_state() gives {:?}", z.name, key, steps, want), rv.clone());
+                    }
+                    if states != want.iter().map(|(_, n)| n.clone()).collect::<Vec<_>>() {
+                        r.violation(&format!("{prefix}:next-states:{}", kname(cfg.kind)), format!("zoo {}: next_states() of {:?} disagrees with actions() x next_state()", z.name, key), rv.clone());
+                    }
+                }
                 for (ra, tgt) in &g.edges[i] {
                     let act = act_from_real(ra);
                     r.evaluations += 1;
